@@ -101,7 +101,7 @@ func cls(err error) string {
 		return "panic"
 	}
 	c := pdfcpu.VerifC24ErrClass(err)
-	if c == "other" && strings.Contains(err.Error(), "precis:") {
+	if c == "other" && (strings.Contains(err.Error(), "validate owner password:") || strings.Contains(err.Error(), "validate user password:")) {
 		return "validate"
 	}
 	return c
@@ -393,10 +393,12 @@ func (g ghost) after(o op) ghost {
 }
 
 var basePW = []string{"", "a", "b", "own", "usr", "é", "pässwörd-ünïcode", "0123456789012345678901234567890123456789", "01234567890123456789012345678901", "a" + string(pad[:31]), string(pad)}
+
+const nTextPW = 9 // the first nTextPW entries of basePW are valid UTF-8 text; the rest are byte strings for R<=4
 var defectPW = []string{"my pass", "ª", "ﬁsh", "Á", strings.Repeat("x", 130), "a b", "x y"}
 
 func partB(r *vh.Run) {
-	nHist := r.Pick(36, 400)
+	nHist := r.Pick(60, 400)
 	for _, a := range algs {
 		base := minimalPDF(a.v20)
 		for hi := 0; hi < nHist; hi++ {
@@ -408,7 +410,11 @@ func partB(r *vh.Run) {
 				if useDefect && r.Rand.Intn(2) == 0 {
 					p = defectPW[r.Rand.Intn(len(defectPW))]
 				} else {
-					p = basePW[r.Rand.Intn(len(basePW))]
+					nb := len(basePW)
+					if a.aes256() {
+						nb = nTextPW // AES-256 passwords are Unicode text (UTF-8)
+					}
+					p = basePW[r.Rand.Intn(nb)]
 				}
 				dup := false
 				for _, q := range pool {
